@@ -252,10 +252,23 @@ func genC15(col *ev.Collector) func(t *rapid.T) c15Case {
 				if rapid.IntRange(0, 3).Draw(t, "othername") == 3 {
 					p.Name = c15Text(t, "name", 1, 8, special)
 				}
-				// like the library's own SBOM extractors, whose packages carry the version
-				// only inside the purl (Package.Version stays empty)
-				if rapid.IntRange(0, 4).Draw(t, "version_only_in_purl") == 4 {
+				// Package.Version and the purl's version are independent fields of what is
+				// exported: mostly they mirror each other; the library's own SBOM extractors
+				// keep the version only inside the purl (Package.Version empty); extractors
+				// that build a version-less purl for a versioned package (golang module
+				// sub-paths, SBOM components that pin the version on the component only)
+				// give the reverse; and some print another spelling of the version in the url
+				switch rapid.IntRange(0, 9).Draw(t, "pkg_version_vs_purl") {
+				case 6, 7:
 					p.Version = ""
+				case 8:
+					// the version lives in Package.Version only: the url itself has none
+					if !strings.EqualFold(p.Purl.Type, purl.TypeCran) {
+						p.Purl.Version = ""
+					}
+					p.Version = c15Text(t, "version", 1, 6, special)
+				case 9:
+					p.Version = c15Text(t, "version", 1, 6, special)
 				}
 			}
 			nl := rapid.IntRange(1, 3).Draw(t, "nloc")
@@ -472,6 +485,17 @@ func propC15(c c15Case) (ev.Outcome, error) {
 		if gp.Purl != nil && gp.Purl.Version != "" && gp.Version == "" {
 			classes = append(classes, "version_only_in_purl")
 			break
+		}
+	}
+	for _, gp := range c.Packages {
+		if gp.Purl != nil && gp.Purl.Version == "" && gp.Version != "" {
+			classes = append(classes, "version_only_in_package")
+		}
+		if gp.Purl != nil && gp.Purl.Version == "" && gp.Version == "" {
+			classes = append(classes, "version_nowhere")
+		}
+		if gp.Purl != nil && gp.Purl.Version != "" && gp.Version != "" && gp.Version != gp.Purl.Version {
+			classes = append(classes, "package_version_differs_from_purl_version")
 		}
 	}
 	if len(wantSPDX) != len(wantCDX) {
